@@ -273,6 +273,15 @@ PLANS["C10"]["rule"] += ("; plus the configuration leg: OpenPGP-mode positives a
 for _p, _n in (("C04", 150), ("C16", 150), ("C08", 150), ("C11", 150), ("C07", 150)):
     PLANS[_p]["stages"].append({"world": "threads", "runs": {"quick": _n, "thorough": _n * 40}})
 
+PLANS["C02"]["stages"].append({"world": "storage", "runs": {"quick": 400, "thorough": 20000}})
+PLANS["C02"]["rule"] += ("; plus the storage world: an envelope that verifies keeps verifying after its file has been rewritten by another tool in "
+                         "another spelling of the same JSON value (BOM, UTF-16/32, CRLF, tabs, escapes)")
+
+for _p in ("C01", "C13", "C02"):
+    PLANS[_p]["stages"].append({"world": "chain", "runs": {"quick": 300, "thorough": 12000}})
+    PLANS[_p]["rule"] += ("; plus the chain world (root ceremonies, rotations, crafted successors): verify_root's two quorum rules are instances "
+                          "of this property - a successor short of either rule must be refused with a signature error, one that meets both accepted")
+
 for _p in ("C08", "C11"):
     PLANS[_p]["stages"].append({"world": "cli", "runs": {"quick": 40, "thorough": 1500}})
     PLANS[_p]["rule"] += ("; plus the CLI world on the real file system (sign-artifacts on files reached through symlinked directories and '..', "
